@@ -1034,12 +1034,10 @@ impl<T, S: Status> FusedIterator for Drain<'_, T, S> {}
 
 impl<T, S: Status> Drop for Drain<'_, T, S> {
     fn drop(&mut self) {
-        while self.len != 0 {
-            let next = self.iter.next();
-            debug_assert!(next.is_some());
-            // SAFETY: The remaining part of the slice has at least `self.len`
-            // elements by invariant
-            let slot = unsafe { next.unwrap_unchecked() };
+        // Visit all remaining slots (not only those up to the last entry):
+        // `RawTable::drain()` already accounted every slot as free, so
+        // tombstones behind the last entry must be removed as well.
+        for slot in self.iter.by_ref() {
             let status = slot.status;
             slot.status = S::FREE;
             if status.is_hash() {
